@@ -124,6 +124,29 @@ def r3_count(ctx):
         want = [("isinstance(count, list) and len(nodes) not in count", True), ("np.isscalar(count) and len(nodes) != count", True)]
         ctx.form(tests == want, ENV, "Environment.request", "a list-valued count admits only the listed sizes, a scalar count exactly that size", detail=tests, expected=want)
         ctx.form(norm(fn.body[-1]) == "return nodes" and fn.body.index(blk[0]) == len(fn.body) - 2, ENV, "Environment.request", "the count check is the last step before returning")
+    # path rule: every way out of request() that hands back the result of a query has passed the test of `count`
+    from ..flowexpr import paths as _paths
+    try:
+        ps = _paths(fn)
+    except AnalysisError as e:
+        ps = None
+        ctx.unrecognised(ENV, "Environment.request", "count check on every path", str(e))
+    nq = 0
+    for q in ps or ():
+        rets = [e for e in q.events if e.kind == "return" and e.resolved is not None]
+        if not rets or ".query(" not in norm(rets[-1].resolved):
+            continue
+        nq += 1
+        counted = any(e.kind == "test" and isinstance(e.resolved, ast.AST) and any(isinstance(x, ast.Name) and x.id == "count" for x in ast.walk(e.resolved))
+                      for e in q.events)
+        what = "a query result is returned only after the requested number of nodes was checked"
+        if counted:
+            ctx.holds(ENV, "Environment.request", what, detail=norm(rets[-1].resolved)[:80])
+        else:
+            ctx.violated(ENV, "Environment.request", what, detail={"returns": norm(rets[-1].resolved)[:100], "under": [f"{norm(t.resolved)[:40]} is {t.extra}" for t in q.tests()][:4]},
+                         expected="the path passes `if count:` (an injection that selects several nodes is rejected)")
+    if ps is not None:
+        ctx.floor("query-returning paths of request()", nq, 4, file=ENV)
     inj = ctx.fn(NB, "BaseNode.inject_value")
     reqs = [c for c in ast.walk(inj) if isinstance(c, ast.Call) and norm(c.func) == "env.request"]
     data = [c for c in reqs if any(k.arg == "count" and norm(k.value) == "1" for k in c.keywords)]
@@ -139,7 +162,23 @@ def r3_count(ctx):
         ctx.form(ok, NB, "BaseNode.inject_value", "the lenient [0,1] request is confined to documentation mode")
 
 
+_IN_CONVERSION = []
+
+
+def _usual_conversion(ctx):
+    """`after which the usual conversion into the host's definition unit applies`: the modification pipeline of C14.R2."""
+    if _IN_CONVERSION:
+        return
+    _IN_CONVERSION.append(1)
+    try:
+        from . import C14 as _C14
+        _C14.r2_pipeline(ctx)
+    finally:
+        _IN_CONVERSION.pop()
+
+
 def r4_authoritative(ctx):
+    _usual_conversion(ctx)
     fn = ctx.fn(NB, "BaseNode.inject_value")
     # value-level: what is stored as the host's raw value / unit on the paths where the referenced node has a typed value
     from ..flowexpr import explore as _explore
@@ -350,6 +389,7 @@ def _relative_names(ctx):
 
 
 def r7_slice_once(ctx):
+    slice_cells(ctx)
     cv = ctx.fn(NB, "BaseNode.cast_value")
     sv = ctx.fn(NB, "BaseNode.slice_value")
     p = sv.args.args[1].arg
@@ -366,6 +406,42 @@ def r7_slice_once(ctx):
         rec = [c for c in ast.walk(sv) if isinstance(c, ast.Call) and norm(c.func) == "self.slice_value"]
         ok = bool(rec) and all(norm(c.args[0]) == f"{p}.copy()" for c in rec)
         ctx.check(ok, NB, "BaseNode.slice_value", "sibling sub-arrays each receive their own copy of the remaining slices", detail=[norm(c) for c in rec])
+
+
+def slice_cells(ctx):
+    """slice_value(): one (from, to) pair either picks a single element (then the rest of the slices applies to that
+    element) or cuts a range (then the rest applies to every element of the range).  The test that picks the element
+    and the test that recurses into a single element must agree in every cell - also for index 0."""
+    from .common import concrete_truth
+    sv = ctx.fn(NB, "BaseNode.slice_value")
+    what = "the remaining slices go to the single element exactly when a single element was picked (also at index 0)"
+    pair = next((a for a in ast.walk(sv) if isinstance(a, ast.Assign) and isinstance(a.targets[0], ast.Tuple) and len(a.targets[0].elts) == 2
+                 and ".pop(0)" in norm(a.value)), None)
+    if pair is None:
+        ctx.form(False, NB, "BaseNode.slice_value", what, detail="(from, to) pair not found")
+        return
+    lo, hi = (norm(e) for e in pair.targets[0].elts)
+    pick = [i for i in ast.walk(sv) if isinstance(i, ast.If) and any(isinstance(a, ast.Assign) and norm(a.value).endswith(f"[{lo}]") for a in i.body)]
+    rec = [i for i in ast.walk(sv) if isinstance(i, ast.If) and any(isinstance(r, ast.Return) and isinstance(r.value, ast.Call) and norm(r.value.func) == "self.slice_value"
+                                                                    for r in i.body)]
+    if len(pick) != 1 or len(rec) != 1:
+        ctx.form(False, NB, "BaseNode.slice_value", what, detail={"element picks": len(pick), "single-element recursions": len(rec)})
+        return
+    bad, und = {}, []
+    for a in (None, 0, 1, 3):
+        for b in (None, 0, 1, 3):
+            v = {lo: a, hi: b}
+            t1, t2 = concrete_truth(pick[0].test, v), concrete_truth(rec[0].test, v)
+            if t1 is None or t2 is None:
+                und.append((a, b))
+            elif t1 != t2:
+                bad[f"({a}, {b})"] = {"element picked": t1, "recursion into one element": t2}
+    if bad:
+        ctx.violated(NB, "BaseNode.slice_value", what, detail=bad, expected=f"both decided by `{norm(pick[0].test)}`")
+    elif und:
+        ctx.form(False, NB, "BaseNode.slice_value", what, detail={"undecided cells": und[:4]})
+    else:
+        ctx.holds(NB, "BaseNode.slice_value", what, detail={"pick": norm(pick[0].test), "recursion": norm(rec[0].test), "cells": 16})
 
 
 RULES = [
